@@ -16,6 +16,11 @@ A *plan* says what to do at one boundary:
         side=after (write/close only): half of the data is written / the close is performed and
         the error is reported nevertheless.
 
+    {"mode": "pause", "thread": name, "at": k, "flush_each": bool}
+        the thread called `name` stops right before ITS k-th boundary (boundaries are also counted
+        per thread) and sets `injector.paused`; it continues when `injector.resume` is set.  Used
+        to enumerate interleavings of two writers deterministically (fsmon.crash.run_interleaved).
+
 Reads and files outside the watched directories are passed through untouched.
 """
 from __future__ import annotations
@@ -23,6 +28,7 @@ from __future__ import annotations
 import builtins
 import errno
 import os
+import threading
 from typing import Any, Callable, Dict, List, Optional, Sequence
 
 DEATH_STATUS = 137
@@ -105,6 +111,9 @@ class Injector:
         self.targets = {os.path.basename(t): os.path.basename(t) for t in targets}
         self.boundaries: List[Dict[str, Any]] = []
         self.fired = False
+        self.per_thread: Dict[str, int] = {}
+        self.paused = threading.Event()
+        self.resume = threading.Event()
         self.limbo: List[Any] = []
         self._installed = False
 
@@ -122,10 +131,18 @@ class Injector:
 
     def step(self, op: str, role: str, do: Callable[[], Any], partial: Optional[Callable[[], Any]] = None, **info):
         i = len(self.boundaries)
-        rec = {"i": i, "op": op, "file": role}
+        tname = threading.current_thread().name
+        ti = self.per_thread.get(tname, 0)
+        self.per_thread[tname] = ti + 1
+        rec = {"i": i, "op": op, "file": role, "thread": tname, "ti": ti}
         rec.update(info)
         self.boundaries.append(rec)
         plan = self.plan
+        if plan.get("mode") == "pause" and plan.get("thread") == tname and plan.get("at") == ti:
+            # deterministic interleaving: this thread stops right before its operation `ti` until resumed
+            self.fired = True
+            self.paused.set()
+            self.resume.wait()
         if plan.get("mode") in ("die", "raise") and plan.get("at") == i:
             self.fired = True
             if plan["mode"] == "die":
